@@ -26,17 +26,15 @@ Proof.
   - unfold g4_active_fan, g5_active_fan, ac4_of, ac5_of. cbn. now destruct (fan_tables_common (k_fan k)) as [_ ->].
   - unfold g5_min_target, g4_min_target, ac4_of, ac5_of. cbn. destruct (k_mode k); rewrite ?N.min_id; reflexivity.
   - unfold g5_max_target, g4_max_target, ac4_of, ac5_of. cbn. destruct (k_mode k); rewrite ?N.max_id; reflexivity.
-  - unfold g4_spill, g5_spill, ac4_of, ac5_of. cbn. now destruct (k_spill k).
   - unfold supported_fans4, supported_fans5, ac4_of, ac5_of. cbn. symmetry. now apply fans_common.
 Qed.
 
 Theorem zone_views_equal k : zview4 (zone4_of k) = zview5 (zone5_of k).
 Proof.
-  unfold zview4, zview5, zone4_of, zone5_of. f_equal; cbn.
-  - unfold gz4_supported_power, gz5_supported_power. reflexivity.
-  - unfold gz4_power_state, gz5_power_state. cbn. now destruct (kz_power k).
-  - unfold gz4_method, gz5_method. cbn. now destruct (kz_method k).
-  - unfold gz4_target_temp, gz5_target_temp. cbn. now destruct (kz_sensor k).
+  unfold zview4, zview5, zone4_of, zone5_of, gz4_supported_power, gz5_supported_power, gz4_power_state, gz5_power_state,
+         gz4_method, gz5_method, gz4_has_sensor, gz5_has_sensor, gz4_battery, gz5_battery, gz4_current_temp, gz5_current_temp,
+         gz4_target_temp, gz5_target_temp, gz4_damper, gz5_damper, gz4_spill, gz5_spill.
+  cbn. destruct (kz_power k), (kz_method k), (kz_sensor k); reflexivity.
 Qed.
 
 (* ---- the same requests are accepted and refused, with the same policy and the same meaning *)
@@ -46,8 +44,8 @@ Lemma wf4_of k : wf_k k -> wf_ac4 (ac4_of k).
 Proof. intros [[Hm Hf] [Hn [H1 [H2 H3]]]]. unfold wf_ac4, ac4_of, a4_id. cbn. repeat split; try assumption; lia. Qed.
 Lemma wf5_of k : wf_k k -> wf_ac5 (ac5_of k).
 Proof.
-  intros [[Hm Hf] [Hn _]]. unfold wf_ac5, ac5_of, a5_id. cbn. repeat split; try assumption.
-  rewrite app_length, Hf. reflexivity.
+  intros [[Hm Hf] [Hn _]]. unfold wf_ac5, ac5_of, a5_id. cbn [a5_ability a5_status ab5_modes ab5_fans a5s_number].
+  split; [exact Hm|]. split; [rewrite app_length, Hf; reflexivity|exact Hn].
 Qed.
 
 Definition same_meaning (o4 : outcome msg4) (o5 : outcome msg5) : Prop :=
@@ -61,7 +59,7 @@ Definition same_meaning (o4 : outcome msg4) (o5 : outcome msg5) : Prop :=
 Lemma fan_bit_common l f : length l = 7%nat -> f <> PF_IntelligentAuto -> fan_bit (l ++ [false]) f = fan_bit l f.
 Proof.
   intros H Hf. do 7 (destruct l as [|? l]; [discriminate H|]). destruct l; [|discriminate H].
-  destruct f; try reflexivity. contradiction.
+  destruct f; reflexivity.
 Qed.
 Lemma fan_bit_ia_common l : length l = 7%nat -> fan_bit (l ++ [false]) PF_IntelligentAuto = false.
 Proof. intros H. do 7 (destruct l as [|? l]; [discriminate H|]). destruct l; [reflexivity|discriminate H]. Qed.
